@@ -14,15 +14,22 @@ def showErr : FitErr String → String
 
 def showApprox (xs : List (List Float)) : String := showList2 (fun x => "~" ++ showF64c x) xs
 
+/-- order-sensitive 64-bit checksum of the bits of a matrix, row by row (the harness computes the same
+over the array it hands to the solver hook) -/
+def checksum (xs : List (List Float)) : UInt64 :=
+  xs.foldl (fun h r => r.foldl (fun h x => (h ^^^ x.toBits) * 0x100000001b3) (h * 31 + 7))
+    0xcbf29ce484222325
+
 def parseLayout : String → Option Layout
   | "C" => some .c | "F" => some .f | "Cs" => some .cStrided | "Fs" => some .fStrided | _ => none
 
-/-- `fit n= p= k= w= lay= form= x= svd=ok|err|panic|none raw=dense|iter sv= vt= q= t= wt=`:
+/-- `fit n= p= k= w= lay= form= x= svd=ok|err|panic|none raw=dense|iter num= xch= sv= vt= q= t= wt=`:
 the record matrix `x` (n rows of width p; `x=` empty for n = 0) in memory layout `lay`, wrapped in a
 dataset in calling form `form` (plain / with targets / with targets and weights / view — the model
 of `fit` reads none of that), the embedding size, the whitening flag, what the external solver call
 `raw` (dense full block on `min(n,p)` pairs, or LOBPCG on `k`) returned on the centred matrix
-(`sv`, `vt`; `svd=none` when the guards reject before it is called) — the model's `leadingSvd`
+(`sv`, `vt`, asked for `num` pairs on the matrix with checksum `xch`; `svd=none` when the guards
+reject before it is called) — the model's `leadingSvd`
 decides which of the two calls it needs and fails (`bad-op`) when the request carries the other
 one —, query rows `q` for `predict` / `inverse_transform`, and integer targets `t` / weights `wt` of
 a dataset over the query rows for `Transformer::transform` / `Predict::predict(DatasetBase)`. -/
@@ -48,10 +55,18 @@ def handleFit (toks : List String) : Option String := do
     (match svdTag with
      | "ok" => do
         let raw ← arg toks "raw"
+        let num ← argNat toks "num"
+        let xch ← (arg toks "xch").bind parseHex
         let sv ← argF64s toks "sv"; let vt ← argF64s2 toks "vt"
         if vt.length ≠ sv.length ∨ vt.any (·.length ≠ p) then none
+        -- the solver is known at ONE point: the matrix with checksum `xch` (what the harness handed
+        -- to the hook) and the pair count `num`.  The model's `fit` must call it exactly there —
+        -- with its own `center x (colMeanL lay p x)` and the count `leadingSvd` chooses —,
+        -- anywhere else the request does not determine the answer
         let given : List (List Float) → Nat → Except String (List Float × List (List Float)) :=
-          fun _ _ => Except.ok (sv, vt)
+          fun xc m =>
+            if m = num ∧ (checksum xc).toNat = xch then Except.ok (sv, vt)
+            else Except.error "missing-solver-output"
         match raw with
         | "dense" => some (leadingSvd given missing p)
         | "iter" => some (leadingSvd missing given p)
@@ -83,6 +98,11 @@ def handleFit (toks : List String) : Option String := do
 def handle (toks : List String) : String :=
   let r := match toks with
     | "fit" :: rest => handleFit rest
+    -- same request; the harness uses these names for un-whitened tiny-scale data / huge-scale data so
+    -- that the float tokens are compared with a smaller / larger absolute tolerance (conf
+    -- `compare.fitt`, `compare.fith`)
+    | "fitt" :: rest => handleFit rest
+    | "fith" :: rest => handleFit rest
     | _ => none
   r.getD "bad-op"
 
